@@ -29,7 +29,7 @@ def run(tier, seed):
         t0 = g.rng.choice([0.0, 1.0, -3.0, 2.5])
         cases.append((t0, t0 + h * g.rng.choice([4, 8, 16]), h, g.rng.choice([0.5, 0.25, 0.125, 0.3])))
     cases.append((0.0, 4.0, 0.5, 0.5))      # the input on which the unscaled RK4 formula fails
-    progs[0]["obs"].append({"obs": "oracle", "name": "c07_closed", "cases": cases})
+    progs.append(carrier([{"obs": "oracle", "name": "c07_closed", "cases": cases}]))
     ex = checklib.explore(progs, keys=KEYS, per_prog_timeout=12.0)
     nontrivial = set()
     for p, a in zip(progs, ex["mres"]):
